@@ -6,9 +6,11 @@ package main
 import (
 	"bytes"
 	"encoding/binary"
+	"encoding/json"
 	"fmt"
 	"math"
 	"math/rand"
+	"sync"
 
 	"github.com/TarsCloud/TarsGo/tars/protocol/codec"
 )
@@ -524,6 +526,63 @@ func c02Extra(tier string, rng *rand.Rand, res *Result) {
 	run("uint16", 0, 65535, tags16)
 	res.Stats["exhaustive_grid_cases_impl_only"] = count
 	res.Evaluations += count
+	c02Concurrent(tier, res, fail)
+}
+
+// contention: G goroutines write and read back their own values on their own Buffers/Readers at the same time (the codec
+// has no shared state, so each goroutine must see exactly what a single-threaded run sees: wire spec + round trip).
+// Values are goroutine-specific so that a leak from a neighbour is visible.
+func c02Concurrent(tier string, res *Result, fail map[string]bool) {
+	G, N := 8, 20000
+	if tier == "thorough" {
+		N = 400000
+	}
+	var mu sync.Mutex
+	var wg sync.WaitGroup
+	total := 0
+	for g := 0; g < G; g++ {
+		wg.Add(1)
+		go func(g int) {
+			defer wg.Done()
+			pat := uint64(0x0101010101010101) * uint64(g+1)
+			str := bytes.Repeat([]byte{byte('a' + g)}, 3+g*40)
+			mk := []c02Case{
+				{WT: "int64", RT: "int64", Z: int64(pat >> 1)}, {WT: "int64", RT: "int64", Z: -int64(pat>>1) - 1},
+				{WT: "f64", RT: "f64", U: pat}, {WT: "f32", RT: "f32", U: pat & 0xffffffff}, {WT: "f32", RT: "f64", U: pat & 0x7f7fffff},
+				{WT: "int32", RT: "int32", Z: int64(int32(pat))}, {WT: "int32", RT: "int64", Z: -int64(int32(pat)) - 1},
+				{WT: "uint32", RT: "uint32", Z: int64(uint32(pat) | 0x80000000)}, {WT: "int16", RT: "int16", Z: int64(int16(pat)) | 0x100},
+				{WT: "uint16", RT: "uint16", Z: int64(uint16(pat)) | 0x8000}, {WT: "uint8", RT: "uint8", Z: int64(uint8(pat)) | 0x80},
+				{WT: "string", RT: "string", S: str}, {WT: "string", RT: "string", S: bytes.Repeat(str, 4)},
+			}
+			n := 0
+			for it := 0; it < N; it++ {
+				c := mk[it%len(mk)]
+				c.Tag = []int{0, 7, 14, 15, 200, 255}[(it/len(mk)+g)%6]
+				c.RTag, c.Req, c.Suffix = c.Tag, true, B{0x0b}
+				fs := c02Run(&c)
+				n++
+				if len(fs) > 0 {
+					mu.Lock()
+					for _, f := range fs {
+						f.Sig = "concurrent/" + f.Sig
+						if !fail[f.Sig] {
+							fail[f.Sig] = true
+							f.Desc = fmt.Sprintf("with %d goroutines encoding/decoding on their own buffers at the same time (goroutine %d, iteration %d): %s", G, g, it, f.Desc)
+							f.Replay = map[string]interface{}{"concurrent": true, "goroutines": G, "iterations": N, "case": c}
+							res.Failures = append(res.Failures, f)
+						}
+					}
+					mu.Unlock()
+				}
+			}
+			mu.Lock()
+			total += n
+			mu.Unlock()
+		}(g)
+	}
+	wg.Wait()
+	res.Stats["concurrent_roundtrips_impl_only"] = total
+	res.Evaluations += total
 }
 
 func init() {
@@ -531,7 +590,7 @@ func init() {
 		runProp(Prop[c02Case]{
 			ID: "C02", Require: "From TarsV Require Import Base.Hex Codec.Wire Codec.Skip Codec.Prim.", CaseType: "c02_case + c02_raw_case",
 			Mismatch: "failing_from c02_all", Corr: "Prim.c02_all (w_T = Buffer.WriteT bytes; r_T = Reader.ReadT value, error class and cursor)",
-			Rule:  "(type, value, tag) triples: boundary-dense + random values per type at tags {0,1,7,13,14,15,16,17,127,128,200,254,255}, all 256 tags per type, exhaustive int8/uint8 at tags 14/15, float specials (NaN payloads, sNaN, inf, +-0, subnormals) + random bits, strings of length 0,1,2,254..257,300 (thorough: 65535,65536,70000) with NUL and >=0x80 bytes; readers of the same and of every wider type; cross-tag reads (skip / absent / required-missing); arbitrary bytes through every reader; implementation-only exhaustive grids (8-bit x 256 tags, 16-bit x {0,14,15,255} tags; thorough: x 256 tags) for round trip + wire spec; class = (writer type, reader type, wire width chosen, tag class <15/>=15, kind)",
+			Rule:  "(type, value, tag) triples: boundary-dense + random values per type at tags {0,1,7,13,14,15,16,17,127,128,200,254,255}, all 256 tags per type, exhaustive int8/uint8 at tags 14/15, float specials (NaN payloads, sNaN, inf, +-0, subnormals) + random bits, strings of length 0,1,2,254..257,300 (thorough: 65535,65536,70000) with NUL and >=0x80 bytes; readers of the same and of every wider type; cross-tag reads (skip / absent / required-missing); arbitrary bytes through every reader; implementation-only exhaustive grids (8-bit x 256 tags, 16-bit x {0,14,15,255} tags; thorough: x 256 tags) for round trip + wire spec; implementation-only contention runs (8 goroutines x 20000 (thorough 400000) round trips of goroutine-specific 64/32/16/8-bit, float and string values on their own buffers at the same time); class = (writer type, reader type, wire width chosen, tag class <15/>=15, kind)",
 			Shard: 700, Workers: 8,
 			Gen: c02Gen, Run: c02Run, Coq: c02Coq,
 			Class: func(c *c02Case) string {
@@ -545,6 +604,16 @@ func init() {
 				return fmt.Sprintf("%s/%s/w%d/%s/%v", c.WT, c.RT, len(c.Written), tc, c.RTag == c.Tag)
 			},
 			Extra: c02Extra,
+			ReplayExtra: func(raw json.RawMessage, res *Result) bool {
+				var m struct {
+					Concurrent bool `json:"concurrent"`
+				}
+				if json.Unmarshal(raw, &m) != nil || !m.Concurrent {
+					return false
+				}
+				c02Concurrent("quick", res, map[string]bool{})
+				return true
+			},
 		}, a)
 	}
 }
